@@ -13,10 +13,13 @@ def libc(ev, name):
     return ev["k"] == "call" and ev.get("callee") == name and not (ev.get("cfile") or "").startswith(facts.REPO)
 
 
-def count_on_paths(f, pred, start=None, start_idx=0, cap=3):
-    """Set of counts of events satisfying pred along non-throwing entry->exit paths (counts capped)."""
+def count_on_paths(f, pred, start=None, start_idx=0, cap=3, prog=None):
+    """Set of counts of events satisfying pred along non-throwing entry->exit paths (counts capped).  With prog: private helpers of
+    the transport that contain such events are walked through (the routine may have been split)."""
     def step(st, ev):
         return min(st + 1, cap) if pred(ev) else st
+    if prog is not None:
+        step = lib.inlined_step(prog, step, lambda g: g.base.startswith(T) and g.id != f.id and any(pred(x) for h in lib.region(prog, g, within=lambda h: h.base.startswith(T)) for x in h.events("call")))
     exits, _ = cfg.run_automaton(f, 0, step, start=start, start_idx=start_idx)
     return sorted({x.state for x in exits if x.kind != "throw"})
 
@@ -60,12 +63,18 @@ def run(ck):
         if f.file.startswith(facts.VERIF) or "/client/" in f.file:
             continue
         fdvars = {d["var"] for d in f.events("decl") if strip_tmpl(d.get("icall") or "") == PEER_FD}
+
+        def is_peer_fd(fn_, a_):
+            fv = {d["var"] for d in fn_.events("decl") if strip_tmpl(d.get("icall") or "") == PEER_FD}
+            return a_.get("v") in fv or PEER_FD.rsplit("::", 1)[1] + "()" in (a_.get("t") or "") and "peer" in (a_.get("t") or "").lower()
         for e in f.calls(lambda e: libc(e, "close")):
             a = e["args"][0] if e.get("args") else {}
             derived = a.get("v") in fdvars or ("c:" + PEER_FD) in (e.get("refs") or [])
+            # or a helper that is handed the peer's descriptor by every caller
+            derived = derived or (a.get("v") in {p_["name"] for p_ in f.params} and lib.param_fed_by(prog, f, a["v"], is_peer_fd))
             if derived:
                 nclose += 1
-                ck.ob("C08-R1", "close(peer fd) in %s" % f.base.replace("Pistache::", ""), f.base == T + "removePeer", e.loc, f,
+                ck.ob("C08-R1", "close(peer fd) in %s" % f.base.replace("Pistache::", ""), lib.only_reached_from(prog, f, {T + "removePeer"}), e.loc, f,
                       "peer descriptor closed in %s" % f.base)
     ck.require(nclose >= 1, "close of a peer descriptor not found")
 
@@ -88,15 +97,36 @@ def run(ck):
         "close": lambda e: libc(e, "close"),
     }
     evs = {}
+    greg = lib.region(prog, g, within=lambda h_: h_.base.startswith(T) and h_.base not in (T + "handlePeerDisconnection",))
     for name, pred in effects.items():
-        cnt = count_on_paths(g, pred)
-        evs[name] = [e for e in g.events("call") if pred(e)]
+        cnt = count_on_paths(g, pred, prog=prog)
+        evs[name] = [e for h_ in greg for e in h_.events("call") if pred(e)]
         ck.ob("C08-R2", "removePeer/%s-once" % name, cnt == [1], evs[name][0].loc if evs[name] else g.loc, g, "occurrences per non-throwing path: %s" % cnt)
     if evs["removeFd"] and evs["close"]:
-        ck.ob("C08-R2", "removePeer/removeFd-before-close", cfg.ev_dominates(gdom, evs["removeFd"][0], evs["close"][0]), evs["close"][0].loc, g,
+        # no path reaches close() before removeFd() (walking through the helpers the routine was split into)
+        early = []
+
+        def ostep(st, ev):
+            if effects["removeFd"](ev):
+                return 1
+            if effects["close"](ev) and st == 0:
+                early.append(ev)
+            return st
+        cfg.run_automaton(g, 0, lib.inlined_step(prog, ostep, lambda h_: h_.base.startswith(T) and h_.id != g.id and h_ in greg))
+        ck.ob("C08-R2", "removePeer/removeFd-before-close", not early, evs["close"][0].loc, g,
               "the descriptor leaves the epoll interest list before it is closed")
-        fdv = {d["var"] for d in g.events("decl") if strip_tmpl(d.get("icall") or "") == PEER_FD}
-        same = all((e["args"][-1 if n == "removeFd" else 0].get("v") in fdv) for n in ("removeFd", "close", "toWrite.erase") for e in evs[n])
+
+        def is_peer_fd2(fn_, a_):
+            fv = {d["var"] for d in fn_.events("decl") if strip_tmpl(d.get("icall") or "") == PEER_FD}
+            return a_.get("v") in fv
+
+        def fd_arg_ok(e, n):
+            a_ = e["args"][-1 if n == "removeFd" else 0]
+            fn_ = e.func
+            if is_peer_fd2(fn_, a_):
+                return True
+            return a_.get("v") in {p_["name"] for p_ in fn_.params} and lib.param_fed_by(prog, fn_, a_["v"], is_peer_fd2)
+        same = all(fd_arg_ok(e, n) for n in ("removeFd", "close", "toWrite.erase") for e in evs[n])
         ck.ob("C08-R2", "removePeer/same-descriptor", same, g.loc, g, "toWrite.erase, removeFd and close all use the value of peer->fd()")
 
     # ---------------- R3 ----------------
